@@ -66,7 +66,7 @@ FLOORS = {
 SHARDS_THOROUGH = 16
 
 #: trigger tags (vf.dslx.shapes.triggers) of the known parser defects: excluded by construction from ``clean``
-PARSE_TRIGGERS = ('not', 'abs', 'factors-asym', 'mixed-table-ref', 'bool-leaf-pred', 'cross-join')
+PARSE_TRIGGERS = ('bool-leaf-pred', 'cross-join')  # the not/abs/factors-asym/mixed-table-ref defects are repaired
 PROFILE = dict(S.PROFILES['semantic'], bool_col_pred=True)
 _EXCLUDED = {}
 
@@ -244,7 +244,8 @@ def _judge(ctx, spec, stmt, data, ref, trig, edep) -> list:
 
 def result_tags(trig) -> list:
     """Attribution of a wrong result / execution error to the known defect that explains it (one tag, by precedence)."""
-    for tag in ('direct-query-over-set', 'not-eq', 'cross-join'):
+    # ('not-eq' - negation of a bare ==/!= - used to head this list; that defect is repaired, so it no longer explains anything)
+    for tag in ('direct-query-over-set', 'cross-join'):
         if tag in trig:
             return [tag]
     return []
